@@ -12,8 +12,10 @@ import (
 	"google.golang.org/grpc"
 	"google.golang.org/grpc/credentials/insecure"
 
+	"github.com/openconfig/gnmi/collector"
 	"github.com/openconfig/gnmi/connection"
 	"github.com/openconfig/gnmi/manager"
+	cpb "github.com/openconfig/gnmi/proto/collector"
 	pb "github.com/openconfig/gnmi/proto/gnmi"
 	tpb "github.com/openconfig/gnmi/proto/target"
 	"verifharness/internal/trace"
@@ -181,6 +183,19 @@ func managerScenario(w *trace.Writer, seed int64) bool {
 		case x < 8:
 			add(t)
 			active[t] = true
+		case x < 9 && r.Intn(2) == 0:
+			// the collector's Reconnect RPC: a list of names, reconnecting the known ones, NotFound if any is unknown
+			var ts []string
+			for k, n := 0, 1+r.Intn(3); k < n; k++ {
+				ts = append(ts, append(append([]string{}, names...), "nosuch")[r.Intn(len(names)+1)])
+			}
+			emit(trace.E{"ev": "inv", "c": "c1", "op": "ReconnectMany", "t": "", "ts": ts})
+			_, err := collector.New(m.Reconnect).Reconnect(context.Background(), &cpb.ReconnectRequest{Target: ts})
+			res := "ok"
+			if err != nil {
+				res = "err"
+			}
+			emit(trace.E{"ev": "ret", "c": "c1", "op": "ReconnectMany", "t": "", "res": res})
 		case x < 9:
 			call("Remove", "nosuch", func() error { return m.Remove("nosuch") })
 		default:
